@@ -751,7 +751,7 @@ def mpc_psi0(z, prec, rnd=round_fast):
     # Euler-Maclaurin remainder sum
     z2 = mpc_square(z, wp)
     t = mpc_one
-    prev = mpc_zero
+    prev = fzero
     k = 1
     eps = mpf_shift(fone, -wp+2)
     while 1:
@@ -760,9 +760,11 @@ def mpc_psi0(z, prec, rnd=round_fast):
         term = mpc_mpf_div(bern, mpc_mul_int(t, 2*k, wp), wp)
         s = mpc_sub(s, term, wp)
         szterm = mpc_abs(term, 10)
-        if k > 2 and mpf_le(szterm, eps):
+        # Stop also when the terms of the asymptotic series start growing
+        # (as in mpf_psi0); otherwise the loop never ends at high precision
+        if k > 2 and (mpf_le(szterm, eps) or mpf_le(prev, szterm)):
             break
-        prev = term
+        prev = szterm
         k += 1
     return mpc_pos(s, prec, rnd)
 
